@@ -87,6 +87,12 @@ func (t *ftr) constLit(e ast.Expr, v constant.Value, ty *ctype) (string, error) 
 
 // expr translates an expression; calls inside it are moved to the prelude of the statement
 func (t *ftr) expr(e ast.Expr) (string, *ctype, error) {
+	if sv, ok := t.subst[e]; ok {
+		if len(sv.texts) != 1 {
+			return "", nil, t.posErr(e, "call with %d results in an expression", len(sv.texts))
+		}
+		return sv.texts[0], sv.tys[0], nil
+	}
 	if tv, ok := t.info.Types[e]; ok && tv.Value != nil {
 		ty, err := t.typeOf(e)
 		if err != nil {
@@ -594,6 +600,9 @@ func (t *ftr) call(call *ast.CallExpr) ([]string, []*ctype, error) {
 		}
 		return []string{s}, []*ctype{ty}, nil
 	}
+	if sv, ok := t.subst[call]; ok {
+		return sv.texts, sv.tys, nil
+	}
 	fun := ast.Unparen(call.Fun)
 	// conversion
 	if tv, ok := t.info.Types[fun]; ok && tv.IsType() {
@@ -741,6 +750,14 @@ func (t *ftr) builtin(call *ast.CallExpr, name string) (string, *ctype, error) {
 		}
 		return x, xt, nil
 	case "cap":
+		if t.chanCap != nil {
+			if tv, ok := t.info.Types[call.Args[0]]; ok {
+				if _, isChan := types.Unalias(tv.Type).Underlying().(*types.Chan); isChan {
+					s, err := t.chanCap(call.Args[0])
+					return s, tZ, err
+				}
+			}
+		}
 		return "", nil, t.posErr(call, "cap is not modelled")
 	}
 	return "", nil, t.posErr(call, "builtin %s is not supported", name)
